@@ -154,6 +154,18 @@ func (ei *resourceInformer) createSharedInformer() error {
 
 // Snapshot returns all cached objects for this informer
 func (ei *resourceInformer) getCachedObjects() []kemtypes.ObjectAndFilterResult {
+	// Reset eventBuf if needed. It is done before the cache is copied: an event
+	// updates the cache first and is buffered afterwards, so every buffered event
+	// dropped here is already in the cache that is copied below, and an event that
+	// updates the cache after the copy is buffered after this reset and is
+	// replayed by enableKubeEventCb. (Resetting after the copy loses the events
+	// that are cached and buffered between the two steps.)
+	ei.eventBufLock.Lock()
+	if !ei.eventCbEnabled {
+		ei.eventBuf = nil
+	}
+	ei.eventBufLock.Unlock()
+
 	ei.cacheLock.RLock()
 	res := make([]kemtypes.ObjectAndFilterResult, 0)
 	for _, obj := range ei.cachedObjects {
@@ -163,12 +175,6 @@ func (ei *resourceInformer) getCachedObjects() []kemtypes.ObjectAndFilterResult 
 
 	verifhook.Point("ri.snap.afterCopy", ei.Monitor.Metadata.MonitorId, ei.Namespace, ei.Name)
 
-	// Reset eventBuf if needed.
-	ei.eventBufLock.Lock()
-	if !ei.eventCbEnabled {
-		ei.eventBuf = nil
-	}
-	ei.eventBufLock.Unlock()
 	return res
 }
 
